@@ -200,6 +200,15 @@ def save_model(
 
     compiler_options = _merge_default_options(compiler_options)
 
+    db_file = os.path.join(model_folder, model_name + ".pymoca_cache")
+
+    if compiler_options["codegen"]:
+        # The shared libraries are overwritten in place. Remove the cache file that
+        # describes the old ones first, so that an interrupted build cannot leave a
+        # cache file behind that refers to (some of) the new libraries.
+        with contextlib.suppress(FileNotFoundError):
+            os.remove(db_file)
+
     objects = {
         "dae_residual": None,
         "initial_residual": None,
@@ -215,7 +224,6 @@ def save_model(
             objects[o] = f
 
     # Output metadata
-    db_file = os.path.join(model_folder, model_name + ".pymoca_cache")
 
     # Write to a temporary file and move that into place when it is complete. Writing
     # the cache file itself would expose a partly written file to concurrent readers,
